@@ -65,6 +65,22 @@ def _build_pool() -> list[tuple[str, object, str]]:
     pool.append(("model:gpp1:intensity", model.intensity, ""))
     amp = next(iter(model.amplitudes.values()))
     pool.append(("model:gpp1:amplitude", amp, ""))
+    # members of the class-coverage pool of C15 with cheap, stable unfoldings
+    from . import z_exprs  # noqa: PLC0415
+
+    library = {e["name"]: e["expr"] for e in z_exprs.library_pool(with_doit=False)}
+    for name in ("PoolSum", "PoolSum(Rational)", "UnevaluatableIntegral", "ComplexSqrt",
+                 "BlattWeisskopfSquared:L", "SphericalHankel1:L", "Kibble", "Kallen", "is_within_phasespace",
+                 "BoostZMatrix(expr)", "MatrixMultiplication", "RelativisticKMatrix", "RelativisticPVector",
+                 "ArraySlice(known shape)", "ArraySlice(nested)", "compute_boost_chain", "bw_with_ff"):
+        pool.append((f"lib:{name}", library[name], ""))
+    # same str and same unfolding, different non-SymPy attribute: a benign collision
+    pool.append(("lib:PhaseSpaceFactor:unnamed", PhaseSpaceFactor(s_real, m1, m2), "str:psf"))
+    pool.append(("lib:PhaseSpaceFactor:named", PhaseSpaceFactor(s_real, m1, m2, name="R"), "str:psf"))
+    pool.append(("lib:deprecated", library["deprecated.UnevaluatedExpression"], "str:legacy"))
+    legacy = z_exprs._deprecated_class()  # noqa: SLF001
+    x, y = sp.symbols("x y")
+    pool.append(("lib:deprecated:named", legacy(x, y, 3, name="lg"), "str:legacy"))
     return pool
 
 
